@@ -217,6 +217,42 @@ pub fn run(desc: &Value, ctx: &Ctx) -> CaseOut {
                 }
             }
         }
+        // 3b. a LONE pack appended to a prefix: the manifest of the every-pack-separate packaging (the entry point itself), and
+        //     a separate content pack file found through its recorded location; both are opened through their tail
+        if let Some((case, created)) = &noconcat {
+            for which in ["entry-point", "content-pack"] {
+                let dir = scratch.path(&format!("lone-{which}"));
+                copy_into(&created.files, &dir);
+                let target = if which == "entry-point" {
+                    dir.join("c.jbk")
+                } else {
+                    match created.files.iter().find(|f| f.extension().map(|e| e == "jbkc").unwrap_or(false)) {
+                        Some(f) => dir.join(f.file_name().unwrap()),
+                        None => continue,
+                    }
+                };
+                let body = std::fs::read(&target).unwrap();
+                let plen = *rng.pick(&[1usize, 64, 65, 4096, 70_000]);
+                let mut all = rng.bytes(plen);
+                all.extend_from_slice(&body);
+                std::fs::write(&target, &all).unwrap();
+                let mut plan = plan_for(case, Some(created));
+                plan.manifest_free = false;
+                let mut got = dump_container(&dir.join("c.jbk"), &plan);
+                got.retain(|k, _| !k.starts_with("check/file/"));
+                let exp = expected_dump(case, created, &plan);
+                let diffs = diff(&exp, &got, keep_all);
+                scenarios += 1;
+                out.obs.inc(&format!("scenario.prefix-lone-{which}"));
+                if !diffs.is_empty() {
+                    out.violate(
+                        json!({"kind": "packaging", "scenario": format!("prefix-lone-{which}"), "item": diffs[0].split(':').next().unwrap_or("").split('/').next().unwrap_or(""), "profile": profile()}),
+                        format!("C10: every pack in its own file, the {which} file appended to a prefix: {} item(s) differ; first: {}", diffs.len(), diffs[0]),
+                        json!({"diffs": diffs.iter().take(5).collect::<Vec<_>>()}),
+                    );
+                }
+            }
+        }
         // 3. one-file container appended to a prefix, opened through the tail fallback
         if let Some((case, created)) = &onefile {
             if case.extra.is_empty() {
